@@ -14,6 +14,7 @@ implementation:
 -/
 import Lean.Data.Json
 import KrillModel.Ca.Preds
+import KrillModel.Ca.Exchange
 import KrillModel.Drivers.Json
 namespace KM.Drv.SysKeys
 open Lean KM.CaK KM.Res KM.AMap KM.Drv
@@ -648,6 +649,53 @@ def revokeMappedMissing (model : List (String × Sys)) : Bool :=
   model.any fun (_, ps) =>
     ps.ca.children.any fun (_, chd) => chd.rcnMap.any fun (n, _) => !(get ps.ca.classes n).isSome
 
+/-! ### C02 convergence (`settle <child> <parent>`) -/
+
+/-- A class under the parent whose new key waits for the operator's `KeyRollActivate` (`RollNew`,
+nothing to send) is judged on its current key: `settle` runs syncs, no activation. -/
+def settleView (s : Sys) (ph : Handle) : Sys :=
+  { s with ca := { s.ca with classes := s.ca.classes.map fun q =>
+      match q.2.keys with
+      | .rollNew _ c => if q.2.parent = ph then (q.1, { q.2 with keys := .active c }) else q
+      | _ => q } }
+
+/-- Which recorded class of non-convergence a pair that is NOT `Pair.converged` belongs to
+(`""`: none of them). -/
+def settleClass (x : Pair) : String :=
+  let ents := x.parent.ca.entitlementsFor x.ch 0
+  let names := ents.map (·.rcn)
+  let mine := x.child.ca.classes.filter fun q => q.2.parent = x.ph
+  if names.eraseDups.length != names.length then "/duplicate-class-name"
+  else if mine.any (fun q => match q.2.keys.revokeRequest with
+      | some k => match get x.parent.ca.children x.ch with
+        | some c => (get c.usedKeys k).isNone
+        | none => false
+      | none => false) then "/revoke-refused-unknown-key"
+  else if mine.any (fun q => q.2.keys.certRequests.any fun k =>
+      match x.parent.ca.process (.childCertify x.ch q.2.parentRcn k none 0) with
+      | .error _ => true
+      | .ok _ => false) then "/request-for-lost-class"
+  else if mine.any (fun q => match q.2.keys with
+      | .active k =>
+        !k.req && ents.any fun e => e.rcn == q.2.parentRcn && seteq k.cert.res e.res &&
+          (match x.parent.ca.issuedFor x.ch e.rcn k.id with
+            | some cc => !seteq cc.res e.res
+            | none => true)
+      | _ => false) then "/cert-on-file-differs"
+  else ""
+
+/-- The pair (parent `p`, child `h`) of observed states, if `p` is a CA that has `h` as a child
+and `h` has `p` as a parent. -/
+def settlePair (tab : Tab) (post : List (String × Sys)) (h p : String) : Option Pair :=
+  match tab.strs.idxOf? ("h:" ++ h), tab.strs.idxOf? ("h:" ++ p) with
+  | some hid, some pid =>
+    match post.find? (·.1 == p), post.find? (·.1 == h) with
+    | some (_, ps), some (_, cs) =>
+      if (get ps.ca.children hid).isSome && cs.ca.parents.contains pid
+      then some ⟨ps, settleView cs pid, hid, pid⟩ else none
+    | _, _ => none
+  | _, _ => none
+
 def oracle (st : St) (op : List String) (ret : String) (cmds : List Json)
     (pre post : List (String × Sys)) : List String :=
   let c02 := st.mode != "C04"
@@ -723,7 +771,22 @@ def oracle (st : St) (op : List String) (ret : String) (cmds : List Json)
           | _ => acc) []
       else []
     acc ++ a1 ++ a2) []
-  perCa ++ panic ++ syncIdem ++ perCmd
+  -- `settle <child> <parent>` (after 4 rounds of sync + pump, this op = one further sync): the pair is
+  -- converged in the sense of `Pair.converged` (the predicate of `exchange_converges*`), and the
+  -- further sync stored no command on either side
+  let settle := match op with
+    | ["settle", h, p] =>
+      if !c02 then [] else
+      match settlePair st.tab post h p with
+      | none => []
+      | some x =>
+        let conv := x.converged 0
+        let stored := cmds.any fun c => jstr (jget c "entity") == "cas:" ++ h || jstr (jget c "entity") == "cas:" ++ p
+        let cls := if conv then "" else settleClass x
+        (if conv then [] else [s!"SyncConverges{cls}@{h}"]) ++
+        (if stored then [s!"SyncIdempotent{if conv then "/settle" else cls}@{h}"] else [])
+    | _ => []
+  perCa ++ panic ++ syncIdem ++ perCmd ++ settle
 
 /-! ## One step -/
 
